@@ -221,8 +221,14 @@ func runCase(e *Env, idx int, c *Case, limit time.Duration) (*Out, error) {
 			lv = append(lv, []string{k, s.Opts.Levels[k]})
 		}
 	}
+	strs := func(x []string) []string {
+		if x == nil {
+			return []string{}
+		}
+		return x
+	}
 	emit(Event{"ev": "Reset", "case": c.ID, "eco": s.Eco, "mode": s.Opts.Mode, "strategy": s.Opts.Strategy, "levels": lv,
-		"maxUpgrades": s.Opts.MaxUpgrades, "noIntroduce": s.Opts.NoIntroduce})
+		"maxUpgrades": s.Opts.MaxUpgrades, "noIntroduce": s.Opts.NoIntroduce, "explicit": strs(s.Opts.Explicit), "ignore": strs(s.Opts.Ignore)})
 
 	orig, err := writeManifest(filepath.Join(dir, "orig"), s.Eco, s.Manifest)
 	if err != nil {
@@ -284,7 +290,9 @@ func runCase(e *Env, idx int, c *Case, limit time.Duration) (*Out, error) {
 					}
 				}
 			}
-			emit(Event{"ev": "Base", "k": k, "name": u.Name, "base": verTuple(baseS), "after": verTuple(afterS), "src": baseSrc})
+			toKind, toAt := reqShape(u.To)
+			emit(Event{"ev": "Base", "k": k, "name": u.Name, "base": verTuple(baseS), "after": verTuple(afterS), "src": baseSrc,
+				"toKind": toKind, "toAt": toAt})
 			data := map[string]any{"patch": a, "update": u, "base": baseS, "after": afterS, "level": lvl, "applied": applied}
 			if lvl == "none" {
 				fail("C11", "none-touched", fmt.Sprintf("package %s is configured as not upgradable but the patch rewrites its requirement %q -> %q", u.Name, u.From, u.To), data)
